@@ -8,6 +8,19 @@ pub mod stdspec {
     pub assume_specification<T, A: core::alloc::Allocator>[Vec::<T, A>::set_len](v: &mut Vec<T, A>, n: usize)
         ensures final(v)@.len() == n;
 
+    // ---- slices: to_vec / swap (not specified by vstd)
+    pub assume_specification<T: Clone> [<[T]>::to_vec] (s: &[T]) -> (r: Vec<T>)
+        ensures r@.len() == s@.len(), forall|i: int| 0 <= i < s@.len() ==> cloned::<T>(#[trigger] s@[i], r@[i]);
+    pub assume_specification<T> [<[T]>::swap] (s: &mut [T], a: usize, b: usize)
+        requires a < old(s)@.len(), b < old(s)@.len()
+        ensures final(s)@ == old(s)@.update(a as int, old(s)@[b as int]).update(b as int, old(s)@[a as int]);
+    #[verifier::external_body]
+    pub broadcast proof fn ax_f64_cloned(a: f64, b: f64) requires #[trigger] cloned::<f64>(a, b) ensures a == b {}
+    // `(k as f64) as i64 == k` for |k| <= 2^53 (exactly representable integers)
+    #[verifier::external_body]
+    pub broadcast proof fn ax_int_roundtrip(k: int)
+        ensures -0x20_0000_0000_0000 <= k <= 0x20_0000_0000_0000 ==> f_to_int(#[trigger] f_of_int(k)) == k {}
+
     // rule R22: `<[usize]>::contains` on a 2-array (assumed contract)
     #[verifier::external_body]
     pub fn arr2_contains(a: [usize; 2], x: usize) -> (r: bool) ensures r == (a[0] == x || a[1] == x) { a.contains(&x) }
